@@ -77,60 +77,100 @@ class Snap:
         return "[" + ";\n ".join(bl) + "]"
 
 
+BOT = "bot"
+
+
 def certificates(snap):
-    """pointer certificates by the checker's own rules (cert_of_def), to a fixpoint; only single-definition variables"""
+    """pointer certificates by the checker's own rules (cert_of_def / phi_cert): optimistic dataflow over single-definition
+    variables (bottom -> (region, offset) -> (region, None) -> no certificate); the checker re-checks the result"""
     defs = {}
     for blk in snap.blocks:
         for ins in blk:
             for x in ins[2]:
                 defs.setdefault(x, []).append(ins)
-    C = {}
+    single = {x: ds[0] for x, ds in defs.items() if len(ds) == 1 and len(ds[0][2]) == 1}
+    C = {x: BOT for x in single}     # BOT = not yet known (optimistic); None = no certificate
 
     def cert_op(o):
         if o[0] == "lit":
             return (None, o[1] % W)
         if o[0] == "var":
-            return C.get(o[1])
+            return C.get(o[1])       # missing (multi-def / undefined) -> None
         return None
 
-    changed = True
-    rounds = 0
-    while changed and rounds < 50:
+    def rule(ins):
+        op, ops, outs, wm, wrd, aid = ins
+        if op == "alloca":
+            return (aid, 0)
+        if op == "assign" and len(ops) == 1:
+            return cert_op(ops[0])
+        if op == "phi":
+            acc = BOT
+            for k in range(1, len(ops), 2):
+                c = cert_op(ops[k])
+                if c == BOT:
+                    continue
+                if c is None:
+                    return None
+                if acc == BOT:
+                    acc = c
+                elif acc[0] != c[0]:
+                    return None
+                elif acc[1] != c[1]:
+                    acc = (acc[0], None)
+            return acc
+        if op in ("add", "sub") and len(ops) == 2:
+            cb, ca = cert_op(ops[0]), cert_op(ops[1])
+            if ca == BOT or cb == BOT:
+                return BOT
+            exact = lambda c: c is not None and c[1] is not None  # noqa
+            if op == "add":
+                if exact(ca) and exact(cb) and ca[0] is None and cb[0] is None:
+                    return (None, (ca[1] + cb[1]) % W)
+                if exact(ca) and exact(cb) and ca[0] is not None and cb[0] is None:
+                    return (ca[0], ca[1] + cb[1])
+                if exact(ca) and exact(cb) and ca[0] is None and cb[0] is not None:
+                    return (cb[0], cb[1] + ca[1])
+                if ca and cb and ca[0] is not None and cb[0] is not None:
+                    return None
+                if ca and ca[0] is not None:
+                    return (ca[0], None)
+                if cb and cb[0] is not None:
+                    return (cb[0], None)
+                if ca and cb and ca[0] is None and cb[0] is None:
+                    return (None, None)
+                return None
+            if exact(ca) and exact(cb) and ca[0] is None and cb[0] is None:
+                return (None, (ca[1] - cb[1]) % W)
+            if exact(ca) and exact(cb) and ca[0] is not None and cb[0] is None:
+                return (ca[0], ca[1] - cb[1])
+            if ca and cb and ca[0] is not None and cb[0] is None:
+                return (ca[0], None)
+            if ca and cb and ca[0] is None and cb[0] is None:
+                return (None, None)
+            return None
+        if op in ("nop", "mstore", "mcopy", "calldatacopy", "codecopy", "returndatacopy", "dloadbytes"):
+            return None
+        return (None, None)
+
+    def leq(a, b):  # lattice order: BOT < exact < (r, None) < None
+        return a == b or a == BOT or b is None or (a is not None and b is not None and a[0] == b[0] and b[1] is None)
+
+    for _ in range(60):
         changed = False
-        rounds += 1
-        for x, ds in defs.items():
-            if len(ds) != 1 or len(ds[0][2]) != 1:
-                continue
-            op, ops, outs, wm, wrd, aid = ds[0]
-            c = None
-            if op == "alloca":
-                c = (aid, 0)
-            elif op == "assign" and len(ops) == 1:
-                c = cert_op(ops[0])
-            elif op in ("add", "sub") and len(ops) == 2:
-                cb, ca = cert_op(ops[0]), cert_op(ops[1])
-                if op == "add":
-                    if ca and cb and ca[0] is None and cb[0] is None and ca[1] is not None and cb[1] is not None:
-                        c = (None, (ca[1] + cb[1]) % W)
-                    elif ca and cb and ca[0] is not None and cb[0] is None and ca[1] is not None and cb[1] is not None:
-                        c = (ca[0], ca[1] + cb[1])
-                    elif ca and cb and ca[0] is None and cb[0] is not None and ca[1] is not None and cb[1] is not None:
-                        c = (cb[0], cb[1] + ca[1])
-                    elif ca and cb and ca[0] is not None and cb[0] is not None:
-                        c = None
-                    elif ca and ca[0] is not None:
-                        c = (ca[0], None)
-                    elif cb and cb[0] is not None:
-                        c = (cb[0], None)
-                else:
-                    if ca and cb and ca[0] is None and cb[0] is None and ca[1] is not None and cb[1] is not None:
-                        c = (None, (ca[1] - cb[1]) % W)
-                    elif ca and cb and ca[0] is not None and cb[0] is None and ca[1] is not None and cb[1] is not None:
-                        c = (ca[0], ca[1] - cb[1])
-            if c is not None and C.get(x) != c:
+        for x, ins in single.items():
+            c = rule(ins)
+            old = C[x]
+            if c != old and leq(old, c):
                 C[x] = c
                 changed = True
-    return C
+            elif c != old and not leq(c, old):
+                # incomparable: go to the join
+                C[x] = (old[0], None) if (old not in (BOT, None) and c not in (BOT, None) and old[0] == c[0]) else None
+                changed = True
+        if not changed:
+            break
+    return {x: c for x, c in C.items() if c not in (BOT, None)}
 
 
 def c_certs(C):
@@ -182,7 +222,7 @@ def key_of(rec):
 COQ_IMPORTS = "From Verif Require Import C14C.CopySem C14C.CopyCheck.\nOpen Scope string_scope.\n"
 
 
-def evaluate(recs, name="c14c"):
+def evaluate(recs, name="c14c", rounds=8):
     """run check_func on every record; returns list of (accepted, certs_ok, n_changed)"""
     if not recs:
         return []
@@ -190,7 +230,8 @@ def evaluate(recs, name="c14c"):
     for r in recs:
         C = certificates(r["before"])
         exprs.append(f"(let C := {c_certs(C)} in let f := {r['before'].c_func()} in let g := {r['after'].c_func()} in "
-                     f"[if check_func C f g then 1 else 0; if certs_ok f C then 1 else 0; if check_blocks C f g then 1 else 0])")
+                     f"let E := infer_entry C f {max(rounds, len(r['before'].blocks) + 1)} in "
+                     f"[if check_func C E f g then 1 else 0; if certs_ok f C then 1 else 0; if check_blocks C E E f g then 1 else 0])")
     import math
     shard = max(1, math.ceil(len(exprs) / 3))
     outs = coqrun.eval_zlists(COQ_IMPORTS, exprs, name, shard=shard, timeout=300)
